@@ -317,6 +317,8 @@ struct BodyScan {
     closures: Vec<(usize, usize, usize, bool)>,
     // `if` expressions in pre-order: (offset just after the then-block's open brace, offset of its closing brace)
     ifs: Vec<(usize, usize)>,
+    // match arms whose body is a block, in pre-order: (offset just after the open brace, offset of the closing brace)
+    arms: Vec<(usize, usize)>,
 }
 
 struct Scanner<'a> {
@@ -475,6 +477,14 @@ impl<'a, 'ast> Visit<'ast> for Scanner<'a> {
         let (bc, _) = self.src.range(l.body.brace_token.span.close());
         self.scan.loops.push((bo, bc, s, e));
         syn::visit::visit_expr_for_loop(self, l);
+    }
+    fn visit_arm(&mut self, a: &'ast syn::Arm) {
+        if let syn::Expr::Block(b) = &*a.body {
+            let (bo, _) = self.src.range(b.block.brace_token.span.open());
+            let (bc, _) = self.src.range(b.block.brace_token.span.close());
+            self.scan.arms.push((bo + 1, bc));
+        }
+        syn::visit::visit_arm(self, a);
     }
     fn visit_expr_if(&mut self, e: &'ast syn::ExprIf) {
         let (bo, _) = self.src.range(e.then_branch.brace_token.span.open());
@@ -803,6 +813,12 @@ fn main() {
                                     } else {
                                         edits.push((st.end, st.end, seq, format!("\n{}", s.text), meta));
                                     }
+                                }
+                                "arm_start" | "arm_end" => {
+                                    let n: usize = s.args.get(1).and_then(|x| x.parse().ok()).unwrap_or_else(|| die(4, "arm anchor needs ordinal".into()));
+                                    let f = scan.arms.get(n).unwrap_or_else(|| die(3, format!("lost-anchor: block-bodied match arm {} of {} not found", n, id)));
+                                    let at = if what == "arm_start" { f.0 } else { f.1 };
+                                    edits.push((at, at, seq, format!("\n{}\n", s.text), meta));
                                 }
                                 "then_start" | "then_end" => {
                                     let n: usize = s.args.get(1).and_then(|x| x.parse().ok()).unwrap_or_else(|| die(4, "if anchor needs ordinal".into()));
